@@ -95,4 +95,47 @@ theorem armor_is_rfc4648 (o t i : Bytes) : Base64.encodeChunks [o, t, i] = base6
 theorem be32_is_u32be (n : Nat) : be32 n = u32be n := by
   exact be32_eq_u32be n
 
+/-! ### the packers follow the source, statement by statement
+
+`enc_pack_outer_layout` / `enc_pack_inner_layout` are extracted from the AST of enc.c on every run: the
+ordered list of what each function writes through its cursor (`*p = x`, `u32 = htonl (x); memcpy (p, &u32, …)`,
+`memcpy (p, src, len)`, with the guarding `if`).  The hand-written packers of the model are proved equal to
+the interpretation of those lists, so a field dropped, added, reordered or re-encoded in the C breaks this
+(in addition to the byte-exact correspondence run). -/
+
+/-- the bytes one extracted write contributes, given the message, configuration, salt and IV -/
+def itemBytes (cf : Conf) (m : Msg) (salt iv : Bytes) (kind expr : String) : Bytes :=
+  if kind = "byte" ∧ expr = "c->version" then [UInt8.ofNat MUNGE_CRED_VERSION.toNat]
+  else if kind = "byte" ∧ expr = "m->cipher" then [UInt8.ofNat m.cipher]
+  else if kind = "byte" ∧ expr = "m->mac" then [UInt8.ofNat m.mac]
+  else if kind = "byte" ∧ expr = "m->zip" then [UInt8.ofNat m.zip]
+  else if kind = "byte" ∧ expr = "m->realm_len" then [UInt8.ofNat m.realmLen]
+  else if kind = "bytes" ∧ expr = "m->realm_str len m->realm_len" then m.realm.take m.realmLen
+  else if kind = "bytes" ∧ expr = "c->iv len c->iv_len" then iv
+  else if kind = "bytes" ∧ expr = "c->salt len c->salt_len" then salt
+  else if kind = "byte" ∧ expr = "m->addr_len=sizeof(m->addr)" then [4]
+  else if kind = "bytes" ∧ expr = "&conf->addr len sizeof(m->addr)" then cf.addr.take 4
+  else if kind = "be32" ∧ expr = "m->time0" then be32 m.time0
+  else if kind = "be32" ∧ expr = "m->ttl" then be32 m.ttl
+  else if kind = "be32" ∧ expr = "m->client_uid" then be32 m.clientUid
+  else if kind = "be32" ∧ expr = "m->client_gid" then be32 m.clientGid
+  else if kind = "be32" ∧ expr = "m->auth_uid" then be32 m.authUid
+  else if kind = "be32" ∧ expr = "m->auth_gid" then be32 m.authGid
+  else if kind = "be32" ∧ expr = "m->data_len" then be32 m.dataLen
+  else if kind = "bytes" ∧ expr = "m->data len m->data_len" then m.data.take m.dataLen
+  else [0xEE, 0xEE, 0xEE, 0xEE, 0xEE]      -- an item the model does not know: makes the equalities below fail
+
+def renderLayout (cf : Conf) (m : Msg) (salt iv : Bytes) (lay : List (String × String × String)) : Bytes :=
+  (lay.map fun (k, e, _) => itemBytes cf m salt iv k e).flatten
+
+/-- `packOuter` is the interpretation of what `enc_pack_outer` writes, in source order, for every message -/
+theorem pack_outer_follows_source (cf : Conf) (m : Msg) (salt iv : Bytes) :
+    packOuter m iv = renderLayout cf m salt iv enc_pack_outer_layout := by
+  simp [packOuter, renderLayout, enc_pack_outer_layout, itemBytes]
+
+/-- `packInner` is the interpretation of what `enc_pack_inner` writes, in source order, for every message -/
+theorem pack_inner_follows_source (cf : Conf) (m : Msg) (salt iv : Bytes) :
+    packInner cf m salt = renderLayout cf m salt iv enc_pack_inner_layout := by
+  simp [packInner, renderLayout, enc_pack_inner_layout, itemBytes]
+
 end Munge.C10
